@@ -8,19 +8,26 @@ ID = 'C05'
 PROPS_V = 'C05/Props.v'
 LEVEL = 'proof'
 TRUSTED = [
-    'translate/c05.py: Python ast -> statements of C05/Imp.v for class groups, chunks.friendsoffriends and the spheregroup tail (Generated/Groups.v); C05/GenRef.v is the hand-maintained reference they must equal',
-    'hand-written models in C05/Model.v (renumbering / list tail of spheregroup, friendsoffriends tail, mapGroups merge, per-cell groups) -- '
+    'translate/c05.py: Python ast -> statements of C05/Imp.v for class groups, chunks.friendsoffriends and the spheregroup tail; normalised source text '
+    'of groups.sphereradec, chunks.chunkfriendsoffriends and the head of spheregroup(); goddard.astro.gcirc over the reals through the extractor '
+    'translate/c18.py gen_gcirc (Generated/Groups.v); C05/GenRef.v is the hand-maintained reference they must equal',
+    'hand-written models in C05/Model.v, C05/Algo.v (renumbering / list tail of spheregroup, friendsoffriends tail, mapGroups merge, per-cell groups) -- '
     'tied to the code by exact reproduction of the returned arrays from recorded intermediate values',
     'harness/impl/c05_impl.py: wraps chunks.friendsoffriends / chunkfriendsoffriends from the harness process to record intermediate values',
-    'gcirc: the adjacency matrix is computed with the implementation\'s own gcirc(units=0) <= deg2rad(linklength), as class groups does (its geometric correctness is C18)',
-    'Coq stdlib Lists, Arith, ZArith, Relations (theorems closed under the global context)',
+    'link relation: computed IN COQ from the coordinates the caller passes (exact rationals) by interval arithmetic (C05/Sky.v, library Interval with '
+    'Bignums floats, 150 bits; soundness C05_sky_link_certified); pydl\'s gcirc only breaks ties inside the band |sep - L| <= 1e-9 L + 1e-13 rad',
+    'Coq stdlib Lists, Arith, ZArith, Relations; Reals (classical Dedekind reals axioms, functional extensionality, classic), Uint63 primitive-integer '
+    'axioms (through Bignums/Interval) for the link-relation theorems only',
 ]
 ASSUMPTIONS = [
-    'pair_coverage (every linked pair lies together in some cell list built by chunks.assign) is a HYPOTHESIS of the conditional theorems: '
-    'geometry of chunks.__init__/getbounds is not proved; the correspondence run searches for counterexamples (output is canonical, so any '
-    'missed link shows up as a different array)',
-    'inputs: 2..48 points, RA in [0,360), |Dec| < 90, linklength 1 arcsec .. 20 deg, chunksize None or any positive value (values below 4*linklength are raised by the code)',
-    'pairs whose separation is within 1e-9 (relative) of the linking length are not generated (1e-4 for integer / float32 coordinate arrays)',
+    'pair_coverage (every linked pair lies together in some cell list built by chunks.assign) is a HYPOTHESIS of the conditional theorems; '
+    'C05_pair_coverage_reduction reduces it to home_assigned + margin_coverage, C05_margin_coverage_exact_nowrap proves those in exact arithmetic '
+    'away from the seam from the two margin inequalities; floating point, the seam wrap cell and the real-number margin inequalities are not '
+    'connected: the correspondence run searches for counterexamples (output is canonical, so any missed link shows up as a different array)',
+    'inputs: 2..64 points, RA written anywhere in [-720, 1080] degrees (conventional range, exactly 0.0 / 360.0, RA + 360, RA - 360), |Dec| <= 90, '
+    'linklength 1 mas .. 20 deg, chunksize None or any positive value (values below 4*linklength are raised by the code)',
+    'pairs whose separation is within 1e-9 (relative) of the linking length are not generated except in family `near` (1e-4 for integer / float32 '
+    'coordinate arrays); inside the band 1e-9 L + 1e-13 rad either link decision is accepted (the implementation\'s is used)',
     'coordinate arrays: float64, float32, int64, int32, int16 (whole degrees) and mixtures; 8-bit integer arrays are excluded (RA does not fit; '
     'numpy wraps dec.max()-dec.min())',
 ]
@@ -67,6 +74,12 @@ def gen_base(rng, fam):
         return dtype_case(rng)
     if fam == 'pole-exact':
         return pole_exact_case(rng)
+    if fam.startswith('seam-'):
+        return seam_straddle_case(rng, fam[5:])
+    if fam == 'polar-cap':
+        return polar_cap_case(rng)
+    if fam == 'edge-lattice':
+        return edge_lattice_case(rng)
     if fam == 'polebound':
         # declination range aimed at the rounding of chunks.__init__'s last declination bound (see harness/props/c04.py)
         c = G.polebound_case(rng)
@@ -170,6 +183,93 @@ def dtype_case(rng):
     t = rng.random()
     return {'fam': 'dtype', 'ra': [p[0] for p in pts], 'dec': [p[1] for p in pts], 'linklength': ll,
             'chunksize': None if t < 0.4 else rng.choice([4 * ll, 10.0, 25.0]), 'dtype': {'ra': dra, 'dec': ddec}}
+
+
+def seam_straddle_case(rng, rep):
+    """clusters and chains with members on BOTH sides of RA 0/360 (raw RA differences of almost 360 degrees between linked
+    points), at any declination up to the polar caps, plus positions exactly at RA 0.0 and 360.0.  `rep` chooses how the same
+    positions are written: 'norm' [0, 360), 'exact' (0.0 / 360.0 present), 'over' (some RA given as RA + 360 or + 720),
+    'neg' (some RA given as RA - 360), 'neg-all' (all RA given as RA - 360 or - 720)"""
+    ll = G.pick_L(rng, 1.0 / 3600.0, 5.0)
+    t = rng.random()
+    if t < 0.5:
+        dec0 = rng.uniform(-70.0, 70.0)
+    elif t < 0.8:
+        dec0 = rng.choice([-1.0, 1.0]) * (90.0 - min(rng.uniform(0.3, 5.0) * ll, 30.0))
+    else:
+        dec0 = rng.choice([0.0, 0.0, 45.0, -60.0])
+    cosd = max(math.cos(dec0 * D2R), 1e-3)
+    pts = []
+    for _ in range(rng.randint(1, 3)):          # clusters whose centre is within 1.5 L of the seam
+        c_ra = G.norm_ra(rng.uniform(-1.5, 1.5) * ll / cosd)
+        c_dec = max(-89.9, min(89.9, dec0 + rng.uniform(-3, 3) * ll))
+        pts.append((c_ra, c_dec))
+        for _ in range(rng.randint(2, 6)):
+            pts.append(G.offset_point(c_ra, c_dec, ll * rng.uniform(0.0, 1.8), rng.uniform(0, 360)))
+    if rng.random() < 0.6:                       # a chain that walks across the seam
+        k = rng.randint(2, 6)
+        s = (G.norm_ra(-k * 0.9 * ll / cosd + rng.uniform(-0.4, 0.4) * ll), max(-89.9, min(89.9, dec0 + rng.uniform(-4, 4) * ll)))
+        pts += chain(rng, s, ll, rng.randint(k + 2, 2 * k + 4), 90.0, wobble=15.0)
+    if rep == 'exact' or rng.random() < 0.25:    # positions exactly on the seam, written both ways, with neighbours
+        d = max(-89.9, min(89.9, dec0 + rng.uniform(-2, 2) * ll))
+        pts += [(0.0, d), (360.0, d + rng.choice([0.0, 0.4 * ll, 0.9 * ll, 1.3 * ll]))]
+        pts.append((G.norm_ra(-rng.choice([0.5, 0.9, 1.2]) * ll / max(math.cos(d * D2R), 1e-3)), d))
+        pts.append((G.norm_ra(rng.choice([0.5, 0.9, 1.2]) * ll / max(math.cos(d * D2R), 1e-3)), d))
+    for _ in range(rng.randint(0, 3)):
+        pts.append(G.sphere_point(rng))
+    pts = pts[:40]
+    if rep == 'over':
+        pts = [(a + rng.choice([0.0, 360.0, 360.0, 720.0]) if a != 360.0 else a, d) for a, d in pts]
+    elif rep == 'neg':
+        pts = [(a - 360.0 if (a > 180.0 and rng.random() < 0.8) else a, d) for a, d in pts]
+    elif rep == 'neg-all':
+        pts = [(a - rng.choice([360.0, 360.0, 720.0]), d) for a, d in pts]
+    rng.shuffle(pts)
+    tt = rng.random()
+    chunk = None if tt < 0.3 else (4.0 * ll if tt < 0.6 else ll * rng.choice([4.0, 5.0, 7.0, 12.0, 30.0, 2.5]))
+    return limit_cost({'fam': 'seam-' + rep, 'ra': [p[0] for p in pts], 'dec': [p[1] for p in pts], 'linklength': ll, 'chunksize': chunk})
+
+
+def polar_cap_case(rng):
+    """points scattered over a polar cap (all right ascensions, a few linking lengths from the pole): linked pairs with raw
+    RA differences anywhere between 0 and 360 degrees"""
+    ll = G.pick_L(rng, 0.05, 5.0)
+    s = rng.choice([-1.0, 1.0])
+    pts = []
+    for _ in range(rng.randint(4, 16)):
+        pts.append((rng.random() * 360.0, s * (90.0 - ll * rng.uniform(0.05, 3.0))))
+    if rng.random() < 0.3:
+        pts.append((rng.choice([0.0, 360.0, 180.0]), s * (90.0 - ll * 0.3)))
+    for _ in range(rng.randint(0, 3)):
+        pts.append(G.sphere_point(rng))
+    rng.shuffle(pts)
+    return limit_cost({'fam': 'polar-cap', 'ra': [p[0] for p in pts], 'dec': [p[1] for p in pts], 'linklength': ll,
+                       'chunksize': rng.choice([None, 4 * ll, 8 * ll, 20 * ll])})
+
+
+def edge_lattice_case(rng):
+    """mostly isolated positions on a lattice whose spacing IS the chunk size: every point sits on (or within rounding of) a
+    declination slice boundary and close to RA cell edges, so it is entered in 4 (up to 6) cells and the number of provisional
+    groups per point is as large as it gets; some lattice points have a partner 0.5-0.95 linking lengths away across the edge"""
+    ll = rng.choice([0.025, 0.05, 0.25, 0.5, 1.0])
+    cs = 4.0 * ll
+    w, h = rng.randint(2, 6), rng.randint(2, 6)
+    ra0 = rng.choice([rng.uniform(5.0, 340.0), 360.0 - rng.randint(0, w) * cs, 0.0])
+    dec0 = rng.choice([0.0, -0.5 * h * cs, rng.uniform(-40.0, 40.0)])
+    k = rng.choice([1, 1, 2])
+    # a declination range just below a whole number of chunks puts every row on (within rounding of) a slice boundary
+    shrink = rng.choice([1.0 - 1e-7, 1.0 - 1e-7, 1.0 - 1e-3, 1.0])
+    pts = []
+    for i in range(w):
+        for j in range(h):
+            p = (G.norm_ra(ra0 + i * k * cs), dec0 + j * k * cs * shrink)
+            pts.append(p)
+            if rng.random() < 0.25:
+                pts.append(G.offset_point(p[0], p[1], ll * rng.choice([0.5, 0.9, 0.95]), rng.choice([0.0, 90.0, 180.0, 270.0, 45.0, 225.0])))
+    pts = [p for p in pts if abs(p[1]) < 89.0][:44]
+    rng.shuffle(pts)
+    return {'fam': 'edge-lattice', 'ra': [p[0] for p in pts], 'dec': [p[1] for p in pts], 'linklength': ll,
+            'chunksize': rng.choice([cs, cs, None, 2 * cs])}
 
 
 def pole_exact_case(rng):
@@ -457,7 +557,7 @@ def history_cases(rng):
 
     def small(n=None):
         for _ in range(60):
-            c = gen_base(rng, rng.choice(['chain-ra', 'clusters', 'joined', 'seam', 'dtype']))
+            c = gen_base(rng, rng.choice(['chain-ra', 'clusters', 'joined', 'seam', 'dtype', 'seam-neg', 'seam-over', 'polar-cap']))
             if admissible(c) and len(c['ra']) >= 3:
                 m = n if n is not None else rng.randint(3, min(16, len(c['ra'])))
                 if len(c['ra']) >= m:
@@ -571,10 +671,32 @@ def run_synthetic(cases):
     return results
 
 
-FAMILIES = ['chain-ra', 'chain-dec', 'chain-diag', 'seam', 'pole', 'joined', 'clusters', 'highdec', 'polebound', 'dtype', 'pole-exact', 'near']
+FAMILIES = ['chain-ra', 'chain-dec', 'chain-diag', 'seam', 'pole', 'joined', 'clusters', 'highdec', 'polebound', 'dtype', 'pole-exact', 'near',
+            'seam-norm', 'seam-exact', 'seam-over', 'seam-neg', 'seam-neg-all', 'polar-cap', 'edge-lattice']
+FAM_COUNT = {'polebound': (4, 40), 'seam-norm': (6, 120), 'seam-exact': (5, 100), 'seam-over': (5, 100), 'seam-neg': (4, 80), 'seam-neg-all': (3, 60),
+             'polar-cap': (6, 120), 'edge-lattice': (6, 120)}
 
 HEADER = '''From Coq Require Import ZArith List. Import ListNotations.
-From PV Require Import C05.Model C05.Algo. Open Scope Z_scope.'''
+From PV Require Import C05.Model C05.Algo C05.Sky. Open Scope Z_scope.'''
+
+BAND_REL = (1, 10 ** 9)        # band of C05/Sky.v around the linking length: relative 1e-9 ...
+BAND_ABS = (1, 10 ** 13)       # ... plus 1e-13 rad (rounding noise of a double-precision evaluation at RA ~ 360 deg)
+
+
+def ratlit(x):
+    """exact rational (num, den) of the number the caller passes (a double, or an integer of an integer array)"""
+    a, b = float(x).as_integer_ratio()
+    return '(%s, %s)' % (C.zlit(a), C.zlit(b))
+
+
+def sky_term(c, r):
+    """input of the certified link relation: the coordinates as passed, the linking length, the band, and the
+    implementation's own adjacency rows (used by Coq only to break ties inside the band)"""
+    if c.get('dtype'):
+        assert all(float(x) == int(x) for x in c['ra'] + c['dec']), 'typed cases use whole degrees'
+    pts = C.coq_list(['(%s, %s)' % (ratlit(a), ratlit(d)) for a, d in zip(c['ra'], c['dec'])])
+    return '(mksky %s %s (%s, %s) (%s, %s) %s)' % (pts, ratlit(c['linklength']), C.zlit(BAND_REL[0]), C.zlit(BAND_REL[1]),
+                                                  C.zlit(BAND_ABS[0]), C.zlit(BAND_ABS[1]), C.coq_list(r['adj']))
 
 
 def zl(l):
@@ -596,13 +718,16 @@ def case_term(case, res):
         f5 = '(Some (%s, %s, %s, %s, %s))' % (zl(fof['inGroup']), zl(fof['multGroup']), zl(fof['firstGroup']), zl(fof['nextGroup']), C.zlit(fof['nGroups']))
     else:
         f5 = 'None'
-    return '(%s, ((%s : list cellrec), %s))' % (base, C.coq_list(cells), f5)
+    inner = '(%s, ((%s : list cellrec), %s))' % (base, C.coq_list(cells), f5)
+    if 'cells' in case:          # synthetic cells: the link relation is arbitrary by construction, no coordinates
+        return inner
+    return '(%s, %s)' % (sky_term(case, res), inner)
 
 
-def base_term(res):
-    """case without recorded internals, for Model.run_cases (oracle comparison only)"""
+def base_term(case, res):
+    """case without recorded internals, for Sky.run_sky_cases (certified link + oracle comparison only)"""
     o = res['ok']
-    return '(mkcase %s %s %s %s %s None)' % (C.coq_list(res['adj']), zl(o[0]), zl(o[1]), zl(o[2]), zl(o[3]))
+    return '(%s, mkcase %s %s %s %s %s None)' % (sky_term(case, res), C.coq_list(res['adj']), zl(o[0]), zl(o[1]), zl(o[2]), zl(o[3]))
 
 
 def run_histories(hists, timeout=1500):
@@ -637,14 +762,21 @@ def check_histories(ctx):
                 continue
             if r['nearest_threshold_rel'] is not None and r['nearest_threshold_rel'] <= (1e-4 if c.get('dtype') else 1e-9):
                 continue
-            terms.append(base_term(r))
+            terms.append(base_term(c, r))
             where.append((hi, ci))
-    cc = C.CoqCases(ctx.work, HEADER, 'run_cases', shard=max(4, len(terms) // (2 * C.NPROC) + 1))
+    cc = C.CoqCases(ctx.work, HEADER, 'run_sky_cases', shard=max(4, len(terms) // (2 * C.NPROC) + 1))
     verdicts = cc.run(terms, tag='hist') if terms else []
     bad = 0
     seen = set()
     for (hi, ci), v in zip(where, verdicts):
-        if v == 0:
+        if v & 12 and 'C05:history:link' not in seen:
+            seen.add('C05:history:link')
+            c, r = hists[hi][ci], hres[hi][ci]
+            ctx.violation('C05:link-certificate:undecided' if v & 8 else 'C05:link:separation-routine-contradicts-certified-separation',
+                          'call %d of a history: %s' % (ci, 'some pair could not be certified either way' if v & 8 else
+                                                        'the link decision of groups.sphereradec / gcirc contradicts the certified separation for pairs %s' % link_differences(c, r)[:3]),
+                          {'kind': 'broken-correspondence', 'item': 'groups.sphereradec / goddard.astro.gcirc vs C05.Sky.sky_link', 'call': c, 'verdict': v}, False)
+        if v & 3 == 0:
             continue
         bad += 1
         h, r = hists[hi], hres[hi][ci]
@@ -658,11 +790,23 @@ def check_histories(ctx):
                                ci, len(h), h[ci].get('history_kind'),
                                'they were correct when returned and changed afterwards' if overwritten else 'already wrong when returned'),
                       {'kind': 'failing-input', 'history': h, 'call_index': ci, 'held_result': r.get('ok'), 'result_when_returned': r.get('immediate'),
-                       'expected_ingroup_uncertified': py_components([int(x) for x in r['adj']], len(h[ci]['ra'])), 'verdict': v,
+                       'expected_ingroup_uncertified': py_components([int(x) for x in r.get('adj_indep', r['adj'])], len(h[ci]['ra'])), 'verdict': v,
                        'meaning': 'every call of the history is an admissible input on its own; the result of a call is what the caller holds: '
                                   'it is compared, in Coq, with C05.Model.spec_output of that call after the last call of the history'}, True)
     ctx.coverage['histories'] = {'histories': len(hists), 'calls_checked_in_coq': len(terms), 'rejected': bad,
                                  'kinds': sorted(set(h[0].get('history_kind') for h in hists))}
+
+
+def link_differences(c, r):
+    """pairs on which the implementation's own link bit differs from the independent one (for messages)"""
+    a = [int(x) for x in r['adj']]
+    b = [int(x) for x in r.get('adj_indep', r['adj'])]
+    out = []
+    for i in range(len(a)):
+        for j in range(len(a)):
+            if i != j and ((a[i] >> j) & 1) != ((b[i] >> j) & 1):
+                out.append((i, j, bool((a[i] >> j) & 1), G_sep((c['ra'][i], c['dec'][i]), (c['ra'][j], c['dec'][j]))))
+    return out
 
 
 def py_components(adj, n):
@@ -685,7 +829,16 @@ def py_components(adj, n):
 
 
 def admissible(c):
-    return (len(c['ra']) >= 2 and all(0.0 <= r < 360.0 for r in c['ra']) and all(abs(d) <= 90.0 for d in c['dec']))
+    """two or more positions, |Dec| <= 90, RA any finite number of degrees written in [-720, 1080] (the conventional range is
+    [0, 360); RA = 360.0, RA + 360 and RA - 360 are other ways of writing the same position and gcirc treats them so)"""
+    return (len(c['ra']) >= 2 and all(-720.0 <= r <= 1080.0 for r in c['ra']) and all(abs(d) <= 90.0 for d in c['dec']))
+
+
+def ra_class(c):
+    if 'ra' not in c:
+        return ''
+    return ':negative-ra' if min(c['ra']) < 0.0 else ''
+
 
 
 def run_batch(cases):
@@ -724,7 +877,7 @@ def correspond(ctx, proof_ok=True):
     rng = ctx.rng
     bases = []
     for fam in FAMILIES:
-        for _ in range(ctx.n(9, 200) if fam != 'polebound' else ctx.n(4, 40)):
+        for _ in range(ctx.n(*FAM_COUNT.get(fam, (9, 200)))):
             c = gen_base(rng, fam)
             if admissible(c):
                 bases.append(c)
@@ -799,7 +952,7 @@ def correspond(ctx, proof_ok=True):
         if 'ok' not in r:
             msg = r.get('msg', '')
             cls = 'cosDecMin' if 'cosDecMin' in msg else (msg.split(' ')[0][:24] if msg else '')
-            ctx.violation('C05:raise:%s:%s' % (r.get('err'), cls),
+            ctx.violation('C05:raise:%s:%s%s' % (r.get('err'), cls, ra_class(c)),
                           'spheregroup raised %s (%s) on an admissible input (family %s)' % (r.get('err'), msg[:80], c['fam']),
                           {'kind': 'failing-input', 'call': c, 'impl_result': {k: v for k, v in r.items() if k not in ('adj', 'rec')},
                            'meaning': 'the property promises a grouping for every list of two or more positions; the call raised instead'}, True)
@@ -809,12 +962,22 @@ def correspond(ctx, proof_ok=True):
             continue
         terms.append(case_term(c, r))
         idx.append(n)
-    cc = C.CoqCases(ctx.work, HEADER, 'run_cases2', shard=max(3, len(terms) // (3 * C.NPROC) + 1))
-    verdicts = cc.run(terms)
-    ctx.coverage['coq_eval_s'] = round(cc.coq_seconds, 1)
+    # sky cases: certified link relation (C05/Sky.v) + everything of run_case2; synthetic-cell cases: run_case2 alone
+    sky_pos = [k for k, n in enumerate(idx) if 'cells' not in cases[n]]
+    syn_pos = [k for k, n in enumerate(idx) if 'cells' in cases[n]]
+    verdicts = [None] * len(idx)
+    cc = C.CoqCases(ctx.work, HEADER, 'run_sky_cases2', shard=max(2, len(sky_pos) // (4 * C.NPROC) + 1))
+    for k, v in zip(sky_pos, cc.run([terms[k] for k in sky_pos], tag='sky')):
+        verdicts[k] = v
+    cc2 = C.CoqCases(ctx.work, HEADER, 'run_cases2', shard=max(3, len(syn_pos) // (2 * C.NPROC) + 1))
+    for k, v in zip(syn_pos, cc2.run([terms[k] for k in syn_pos], tag='syn') if syn_pos else []):
+        verdicts[k] = v
+    ctx.coverage['coq_eval_s'] = round(cc.coq_seconds + cc2.coq_seconds, 1)
     multi = 0
     cross = 0
     asym = 0
+    seamlinks = 0
+    impl_link_differs = 0
     for n in idx:
         r = results[n]
         rows = [int(x) for x in r['adj']]
@@ -823,6 +986,13 @@ def correspond(ctx, proof_ok=True):
             asym += 1
         if max(r['ok'][1]) > 1:
             multi += 1
+        cn = cases[n]
+        if 'ra' in cn:
+            ir = [int(x) for x in r.get('adj_indep', r['adj'])]
+            if any((ir[a] >> b) & 1 and abs(cn['ra'][a] - cn['ra'][b]) > 180.0 for a in range(len(ir)) for b in range(a)):
+                seamlinks += 1
+            if any(x != y for x, y in zip(r.get('adj_indep', r['adj']), r['adj'])):
+                impl_link_differs += 1
         rec = r.get('rec') or {}
         seen = {}
         for ci, cell in enumerate(rec.get('cells', [])):
@@ -834,12 +1004,16 @@ def correspond(ctx, proof_ok=True):
         'evaluations': len(terms),
         'distinct_nontrivial': len(set(terms)),
         'rule': 'one evaluation = one spheregroup call whose four returned arrays are compared, inside Coq, for exact equality with '
-                '(components, lists_of) computed from the adjacency matrix (implementation\'s own gcirc) and with the renumbering model run on the '
+                '(components, lists_of) of the link relation certified in Coq from the coordinates (independent of gcirc) and with the renumbering model run on the '
                 'recorded friendsoffriends() result; every point set is run in 3 orders; raised calls are counted as violations, not evaluations',
         'cases_by_family_chunk_outcome': dist,
         'cases_with_a_group_of_2_or_more': multi,
         'cases_with_a_group_spanning_several_cells': cross,
-        'cases_with_asymmetric_or_irreflexive_adjacency': asym,   # hypotheses of C05_spheregroup_spec on the float link
+        'cases_with_asymmetric_or_irreflexive_adjacency': asym,   # of the implementation's own gcirc bits (tie-break inside the band only)
+        'cases_with_a_linked_pair_whose_raw_ra_difference_exceeds_180': seamlinks,
+        'cases_where_gcirc_bits_differ_from_the_independent_link': impl_link_differs,
+        'link_relation': 'certified in Coq from the coordinates (C05/Sky.v, theorem C05_sky_link_certified); band rel %g abs %g rad' % (
+            BAND_REL[0] / BAND_REL[1], BAND_ABS[0] / BAND_ABS[1]),
         'skipped_near_threshold': skipped,
         'samples': [dict(cases[n], impl=results[n]['ok']) for n in idx[:3]] + [dict(cases[n], impl=results[n]['ok']) for n in idx[-1:]],
     })
@@ -850,7 +1024,28 @@ def correspond(ctx, proof_ok=True):
             continue
         c, r = cases[n], results[n]
         nn = c['n'] if 'cells' in c else len(c['ra'])
-        want = py_components([int(x) for x in r['adj']], nn)
+        want = py_components([int(x) for x in r.get('adj_indep', r['adj'])], nn)
+        if 'cells' not in c and v & 8:
+            sig = 'C05:link-certificate:undecided'
+            if sig not in seen:
+                seen.add(sig)
+                ctx.violation(sig, 'the interval evaluation of C05/Sky.v could not certify some pair either way (family %s): enclosures too wide or a malformed coordinate' % c['fam'],
+                              {'kind': 'broken-correspondence', 'item': 'C05.Sky.sky_ok (checker of the certified link relation)', 'call': c, 'verdict': v}, False)
+        if 'cells' not in c and v & 4:
+            diff = link_differences(c, r)
+            sig = 'C05:link:separation-routine-contradicts-certified-separation'
+            if sig not in seen:
+                seen.add(sig)
+                ctx.violation(sig, 'the link decision of groups.sphereradec (gcirc(units=0) <= deg2rad(linklength) on the radians chunkfriendsoffriends builds) '
+                                   'contradicts the separation certified in Coq from the coordinates, outside the rounding band, for %d pair(s), e.g. %s (family %s)' % (
+                                       len(diff), diff[:1], c['fam']),
+                              {'kind': 'failing-input' if v & 2 else 'broken-correspondence', 'item': 'groups.sphereradec / goddard.astro.gcirc vs C05.Sky.sky_link',
+                               'call': c, 'pairs': diff[:10], 'verdict': v,
+                               'meaning': 'pairs = (i, j, implementation links them, separation in degrees by an independent double-precision formula); '
+                                          'the certified decision is C05_sky_link_certified'}, bool(v & 2))
+            if not v & 3:
+                continue
+        v = v & 3
         if 'cells' in c:
             # synthetic cell lists: not an input of spheregroup(); a disagreement refutes the tie between the code after
             # chunk.assign and the model of theorem C05_spheregroup_spec (whose hypothesis pair_coverage holds by construction)
@@ -870,7 +1065,7 @@ def correspond(ctx, proof_ok=True):
             got = r['ok'][0]
             same_partition = len(set(zip(want, got))) == len(set(want)) == len(set(got))
             what = 'partition' if not same_partition else ('numbering' if want != got else 'lists')
-            sig = 'C05:%s%s:property' % (what, ':point-at-pole' if any(abs(d) == 90.0 for d in c['dec']) else '')
+            sig = 'C05:%s%s%s:property' % (what, ':point-at-pole' if any(abs(d) == 90.0 for d in c['dec']) else '', ra_class(c))
             if sig in seen:
                 continue
             seen.add(sig)
@@ -898,7 +1093,7 @@ def replay(ctx, rep):
             print('call %d: %d points, linklength=%r chunksize=%r' % (ci, len(c['ra']), c['linklength'], c['chunksize']))
             print('   when returned  :', r.get('immediate', r.get('err')))
             print('   after last call:', r.get('ok'))
-            print('   expected ingroup (uncertified):', py_components([int(x) for x in r['adj']], len(c['ra'])))
+            print('   expected ingroup (uncertified):', py_components([int(x) for x in r.get('adj_indep', r['adj'])], len(c['ra'])))
         return 0
     c = rep.get('call')
     sc = rep.get('synthetic_call')
@@ -926,7 +1121,9 @@ def replay(ctx, rep):
     print('          multgroup =', out['ok'][1])
     print('          firstgroup=', out['ok'][2])
     print('          nextgroup =', out['ok'][3])
-    print('expected ingroup (uncertified recomputation from the adjacency matrix):', py_components([int(x) for x in out['adj']], len(c['ra'])))
-    cc = C.CoqCases(ctx.work, HEADER, 'run_cases2', shard=1)
-    print('coq verdict (0 ok, +1 renumber model differs, +2 output is not (components, lists_of)):', cc.run([case_term(c, out)]))
+    print('expected ingroup (uncertified recomputation from an independent adjacency matrix):', py_components([int(x) for x in out.get('adj_indep', out['adj'])], len(c['ra'])))
+    print('pairs on which the implementation\'s link bit differs from the independent one:', link_differences(c, out)[:10])
+    cc = C.CoqCases(ctx.work, HEADER, 'run_sky_cases2', shard=1)
+    print('coq verdict (0 ok, +1 a model differs, +2 output is not (components, lists_of) of the certified link relation, '
+          '+4 implementation link bits differ from the certified ones, +8 a pair not certified):', cc.run([case_term(c, out)]))
     return 0
